@@ -57,6 +57,13 @@ def run(res, args):
         at = [len(fr[0]) + len(text) + max(6, len(fr[1]) // 2), len(fr[0]) + len(text) + 2, len(fr[0]) + 20][k % 3]
         ins.append((s, "silence of 1.5 s " + ["inside a frame", "inside a leader", "inside text"][k % 3]))
         cases.append("filter %s %d %d 0 %s m1500@%d" % (gen.hx(s), k % 2, (k >> 1) % 2, rng.choice(["7", "4096", "1"]), at))
+    # CRC-valid frames whose type field is all zeros / all ones (rtcmfilter passes on every valid frame, whatever its type)
+    for k in range(4 if res.tier == "quick" else 16):
+        t = [0, 4095, 0, 1][k % 4]
+        odd = gen.make_frame(gen.payload_with_type(rng, t, rng.choice([2, 6, 19, 40])))
+        s = gen.rand_frame(rng, small=True) + odd + b"$GP,1*00\r\n" + odd + gen.rand_frame(rng, small=True)
+        ins.append((s, "valid frames of type 0 / 4095"))
+        cases.append("filter %s %d %d 0 %s -" % (gen.hx(s), k % 2, (k >> 1) % 2, rng.choice(["7", "4096"])))
     # a reader that once returns no bytes and no error (allowed by io.Reader; it is not end of input)
     for k in range(3 if res.tier == "quick" else 12):
         fr = [gen.rand_frame(rng, small=True) for _ in range(3)]
